@@ -23,6 +23,18 @@ Arguments is_lit _ _%string_scope.
 Definition is_secure (xs : marker) : bool * marker :=
   if is_lit xs "true" then (true, xs) else (false, None).
 
+(* what a CALL handler returns as its *Status: nil, a non-nil status whose code is OK, an error *)
+Inductive hret := RetNil | RetOkObj | RetErr.
+(* how the handler was registered: struct controller method, function, unknown-call handler *)
+Inductive hkind := KStruct | KFunc | KUnknown.
+(* router.go makeCallHandlersFromStruct / makeCallHandlersFromFunc / SetUnknownCall: every wrapper
+   stores the returned status in ctx.stat only when it is NOT OK ("if !stat.OK() { ctx.stat = stat }") *)
+Definition router_sets_stat (k : hkind) (r : hret) : bool :=
+  match r with RetErr => true | _ => false end.
+
+(* the two per-message entries the plugin keeps in the context swap *)
+Record swap := mkSwap { sw_acc : bool; sw_raw : bool }.
+
 Section Secure.
   Variable key : Type.
   Variable V : Type.                                   (* user values (args / results) *)
@@ -96,14 +108,18 @@ Section Secure.
     q_accept : marker;      (* X-Accept-Secure set by the caller *)
     q_arg : V }.
 
-  (* the handler: result, status OK?, and the X-Secure it leaves in the reply metadata
-     (EnforceSecure or an explicit value) *)
+  (* the handler: result, what kind of handler it is, the *Status it returns, and the X-Secure it
+     leaves in the reply metadata (EnforceSecure or an explicit value) *)
   Record handler := mkHandler {
     h_fun : V -> V;
-    h_ok : bool;
+    h_kind : hkind;
+    h_ret : hret;
     h_secure : marker }.
 
-  Inductive status := SOk | SBadMessage | SServerPlugin | SClientPlugin | SHandler | SWrite.
+  (* ctx.Status() == nil after the handler, which is what the pre-write hook tests *)
+  Definition h_ok (h : handler) : bool := negb (router_sets_stat (h_kind h) (h_ret h)).
+
+  Inductive status := SOk | SBadMessage | SServerPlugin | SClientPlugin | SHandler | SWrite | SInternal.
 
   Record call_obs := mkCallObs {
     c_req_secure : marker;            (* X-Secure on the wire, request *)
@@ -169,6 +185,47 @@ Section Secure.
                  | Some w2 => mkServeObs (Some a) xs2 (Some w2) SOk
                  end
              end
+    end.
+
+  (* the same with the swap entries explicit: [sw] is what the context swap holds when the message
+     arrives (context.go reInit: a COPY of the session swap), the second component what it holds
+     when the message is done *)
+  Definition serve_call_sw (ks : key) (sw : swap) (xs xa : marker) (w1 : bytes) (h : handler)
+    : serve_obs * swap :=
+    let '(use1, acc1, _) := pre_read xs xa in
+    let acc := sw_acc sw || acc1 in
+    let raw := sw_raw sw || use1 in
+    match read_body zarg ks use1 w1 with
+    | RDecode => (mkServeObs None None (Some []) SBadMessage, mkSwap acc raw)
+    | RPlugin => (mkServeObs None None (Some []) SServerPlugin, mkSwap acc raw)
+    | ROk a =>
+        if raw && negb use1 then
+          (* a saved-body entry that is not this message's: PostReadCallBody asserts that the body
+             is an *Encrypt and panics; handleCall answers 500 *)
+          (mkServeObs None None (Some []) SInternal, mkSwap acc raw)
+        else
+        let sw' := mkSwap acc false in
+        if negb (h_ok h) then (mkServeObs (Some a) (h_secure h) (Some []) SHandler, sw')
+        else match pre_write ks true (h_secure h) acc (h_fun h a) with
+             | WErr => (mkServeObs (Some a) (snd (is_secure (h_secure h))) None SWrite, sw')
+             | WOk xs2 ob2 =>
+                 match wire_body ob2 with
+                 | None => (mkServeObs (Some a) xs2 None SWrite, sw')
+                 | Some w2 => (mkServeObs (Some a) xs2 (Some w2) SOk, sw')
+                 end
+             end
+    end.
+
+  (* several requests on one session.  [share = false] is the code: every message gets a copy of
+     the session swap [S], which the plugin never writes; [share = true] is the variant in which the
+     context uses the session's map itself *)
+  Fixpoint serve_seq (share : bool) (ks : key) (S : swap)
+                     (ms : list (marker * marker * bytes * handler)) : list serve_obs :=
+    match ms with
+    | [] => []
+    | (xs, xa, w, h) :: r =>
+        let '(o, S') := serve_call_sw ks S xs xa w h in
+        o :: serve_seq share ks (if share then S' else S) r
     end.
 
   Definition serve_push (ks : key) (xs xa : marker) (w1 : bytes) : option V :=
